@@ -1,7 +1,10 @@
 //go:build verif
 
-// Contracts for the generated bindings of this package (property C05), derived mechanically by
-// /verif/tools/gencontracts.py from the generated source; checked by /verif/govc. Comments only.
+// Contracts for the generated bindings of this package, derived mechanically by /verif/tools/gencontracts.py;
+// checked by /verif/govc. Comments only. C05 (decoder totality): from the shape of the generated readers.
+// C03 (schema encoding): from the IDL file of the package - for a struct whose members are all scalars or
+// strings, WriteTo appends exactly the members in ascending tag order, each under its declared tag and wire
+// type, required ones always, optional ones unless equal to their declared default.
 
 package configf
 
@@ -30,6 +33,22 @@ package configf
 //@   ensures [C05] validR(readBuf)
 //@   safety [C05]
 //
+//@ func (*ConfigInfo).WriteTo
+//@   requires st != nil && validB(buf) && len(st.Appname) < 4294967296 && len(st.Servername) < 4294967296 && len(st.Filename) < 4294967296 && len(st.Host) < 4294967296 && len(st.Setdivision) < 4294967296
+//@   let e0 = buf.buf.bytes
+//@   let e1 = e0 ++ encString(0, st.Appname)
+//@   let e2 = e1 ++ encString(1, st.Servername)
+//@   let e3 = e2 ++ encString(2, st.Filename)
+//@   let e4 = e3 ++ encBool(3, st.BAppOnly)
+//@   let e5 = (st.Host != "" ? e4 ++ encString(4, st.Host) : e4)
+//@   let e6 = (st.Setdivision != "" ? e5 ++ encString(5, st.Setdivision) : e5)
+//@   let pre = e6
+//@   opaque head encInt8 encInt16 encInt32 encInt64 encString encBool
+//@   perreturn
+//@   modifies buf.buf.bytes
+//@   ensures [C03] err == nil && buf.buf.bytes == pre
+//@   safety [C03]
+//
 //@ func (*GetConfigListInfo).ResetDefault
 //@   requires st != nil
 //@   modifies *st
@@ -54,3 +73,19 @@ package configf
 //@   ensures [C05] readBuf.buf.i >= p0
 //@   ensures [C05] validR(readBuf)
 //@   safety [C05]
+//
+//@ func (*GetConfigListInfo).WriteTo
+//@   requires st != nil && validB(buf) && len(st.Appname) < 4294967296 && len(st.Servername) < 4294967296 && len(st.Host) < 4294967296 && len(st.Setdivision) < 4294967296 && len(st.Containername) < 4294967296
+//@   let e0 = buf.buf.bytes
+//@   let e1 = e0 ++ encString(0, st.Appname)
+//@   let e2 = (st.Servername != "" ? e1 ++ encString(1, st.Servername) : e1)
+//@   let e3 = (st.BAppOnly != false ? e2 ++ encBool(2, st.BAppOnly) : e2)
+//@   let e4 = (st.Host != "" ? e3 ++ encString(3, st.Host) : e3)
+//@   let e5 = (st.Setdivision != "" ? e4 ++ encString(4, st.Setdivision) : e4)
+//@   let e6 = (st.Containername != "" ? e5 ++ encString(5, st.Containername) : e5)
+//@   let pre = e6
+//@   opaque head encInt8 encInt16 encInt32 encInt64 encString encBool
+//@   perreturn
+//@   modifies buf.buf.bytes
+//@   ensures [C03] err == nil && buf.buf.bytes == pre
+//@   safety [C03]
